@@ -95,6 +95,47 @@ class Outer:
         return self.box.v
 
 
+class Shelf:
+    """pl14: objects held in lists and mutated through the LOOP VARIABLE (translated to PyLite's for-loop with
+    write-back, SForWB): over an attribute path, over an indexed path, with break / return / a raise after
+    the mutation, with an attribute store through the variable"""
+
+    def __init__(self, n):
+        self.boxes = [Box(i) for i in range(n)]
+        self.rows = [[Box(1), Box(2)], [], [Box(3)]]
+        self.hits = 0
+
+    def put_all(self, x):
+        for bx in self.boxes:
+            bx.put(x)
+        return len(self.boxes)
+
+    def bump_row(self, i, k):
+        for bx in self.rows[i]:
+            bx.bump(k)
+            if bx.v > 40:
+                break
+        self.hits += 1
+        return i
+
+    def first_big(self, k):
+        for bx in self.boxes:
+            bx.v += k
+            if bx.v > 20:
+                return bx.v
+        return -1
+
+    def state(self):
+        out = []
+        for bx in self.boxes:
+            out.append([bx.v, bx.log])
+        for row in self.rows:
+            for bx in row:
+                out.append([bx.v, bx.log])
+        out.append(self.hits)
+        return out
+
+
 class Kind(IntEnum):
     A = 0
     B = 1
@@ -307,7 +348,7 @@ class Gen:
             out.append(p + "if %s:" % self.bool_e(1))
             out.append("    " * (ind + 1) + "raise %s" % self.pick(["ValueError", "IndexError", "KeyError"]))
         else:
-            kk = self.r.randrange(7)
+            kk = self.r.randrange(11)
             if kk == 0:
                 out.append(p + "outer.feed(%s)" % self.list_e(1))
             elif kk == 1:
@@ -332,8 +373,24 @@ class Gen:
                 out.append(p + "rec = Rec(%s, tags=(%s, %s))" % (self.int_e(1), self.int_e(2), self.int_e(2)))
                 out.append(p + "rec.k += rec.tags[%s]" % self.pick(["0", "1", "-1", "2"]))
                 self.recs = True
-            else:
+            elif kk == 6:
                 out.append(p + "outer.box.bump(%s)" % self.int_e(1))
+            elif kk == 7:
+                out.append(p + "shelf.put_all(%s)" % self.int_e(1))
+            elif kk == 8:
+                out.append(p + "shelf.bump_row(%s, %s)" % (self.pick(["0", "2", "1", "(%s & 3)" % self.int_e(2)]), self.int_e(1)))
+            elif kk == 9:
+                name, pool = self.fresh("i")
+                out.append(p + "%s = shelf.first_big(%s)" % (name, self.int_e(1)))
+                pool.append(name)
+            else:
+                # a for-loop with write-back over a local list of objects
+                out.append(p + "for bx in boxes:")
+                out.append("    " * (ind + 1) + self.pick(["bx.put(%s)" % self.int_e(1), "bx.bump(%s)" % self.int_e(1),
+                                                          "bx.v = bx.v + %s" % self.int_e(1)]))
+                if self.r.random() < 0.4:
+                    out.append("    " * (ind + 1) + "if %s:" % self.bool_e(1))
+                    out.append("    " * (ind + 2) + self.pick(["break", "continue"]))
         return out
 
     def block(self, ind, d, allow_new=True):
@@ -349,11 +406,12 @@ class Gen:
 
     def function(self, name):
         self.ints, self.byts, self.lists = ["a"], ["b"], ["c"]
-        lines = ["def %s(a, b, c):" % name, "    box = Box(a & 255)", "    outer = Outer(a & 63)", "    rec = Rec(0)"]
+        lines = ["def %s(a, b, c):" % name, "    box = Box(a & 255)", "    outer = Outer(a & 63)", "    rec = Rec(0)",
+                 "    shelf = Shelf(a & 3)", "    boxes = [Box(1), Box(a & 15)]"]
         for _ in range(self.r.randrange(3, 8)):
             lines += self.stmt(1, 0)
         lines.append("    return (%s)" % ", ".join(self.ints + self.byts + self.lists + ["box.v", "box.log", "box.size", "box.total()", "outer.box.v", "outer.box.log", "outer.n", "outer.lim",
-                                                           "rec.k", "rec.name", "rec.tags"]))
+                                                           "rec.k", "rec.name", "rec.tags", "shelf.state()", "[[bx.v, bx.log] for bx in boxes]"]))
         return "\n".join(lines)
 
 
